@@ -162,3 +162,120 @@ def r01_4(ctx, repo):
                'reports the stored per-output counts')
     else:
         ctx.error(rule, 'n_observations does not return self._n_obs')
+
+
+# -----------------------------------------------------------------------------
+# R01.5 — the per-output selector is applied on every path
+# -----------------------------------------------------------------------------
+def r01_5(ctx, repo):
+    """In the per-output loops of LogLikelihood the simulated values (and
+    their sensitivities) handed to an error model are the entries of the
+    union grid selected by that output's selector `self._obs_masks[k]`, on
+    every path.  A selection that is skipped under a run-time condition (for
+    instance "lengths already agree") pairs observations with the
+    predictions of other time points whenever the condition holds by
+    coincidence."""
+    rule = 'R01.5'
+    SEL = 'self._obs_masks'
+    n = 0
+    for m in ('__call__', 'evaluateS1', 'compute_pointwise_ll'):
+        fn = repo.method(CLS, m)
+        if fn is None:
+            continue
+        construct = '%s.%s' % (CLS, m)
+        for loop in [l for l in ast.walk(fn) if isinstance(l, ast.For)]:
+            calls = [c for c in ast.walk(loop) if isinstance(c, ast.Call)
+                     and isinstance(c.func, ast.Attribute)
+                     and c.func.attr in ('compute_log_likelihood',
+                                         'compute_pointwise_ll',
+                                         'compute_sensitivities')]
+            if not calls:
+                continue
+            state = {}          # local name -> 'SEL' | 'RAW' | 'MIXED'
+
+            def kind(e):
+                if isinstance(e, ast.Name):
+                    return state.get(e.id)
+                if isinstance(e, ast.Subscript):
+                    if SEL in U(e.slice):
+                        return 'SEL'
+                    k = kind(e.value)
+                    if k:
+                        return k
+                    if any(isinstance(x, ast.Name) and x.id in (
+                            'outputs', 'senss') for x in ast.walk(e.value)):
+                        return 'RAW'
+                    return None
+                if isinstance(e, ast.Call) and e.args and U(e.func) in (
+                        'np.asarray', 'np.array', 'np.copy'):
+                    return kind(e.args[0])
+                if isinstance(e, ast.Name) is False and isinstance(
+                        e, ast.Attribute) and e.attr == 'T':
+                    return kind(e.value)
+                return None
+
+            def visit(stmts):
+                for s in stmts:
+                    if isinstance(s, ast.If):
+                        before = dict(state)
+                        visit(s.body)
+                        a = dict(state)
+                        state.clear()
+                        state.update(before)
+                        visit(s.orelse)
+                        b = dict(state)
+                        for k_ in set(a) | set(b):
+                            va, vb = a.get(k_), b.get(k_)
+                            state[k_] = va if va == vb else 'MIXED'
+                        continue
+                    if isinstance(s, (ast.Try, ast.With)):
+                        visit(s.body)
+                        continue
+                    for c in ast.walk(s):
+                        if c in calls:
+                            check(c)
+                    if isinstance(s, ast.Assign) and len(s.targets) == 1 \
+                            and isinstance(s.targets[0], ast.Name):
+                        k_ = kind(s.value)
+                        if k_:
+                            state[s.targets[0].id] = k_
+                        else:
+                            state.pop(s.targets[0].id, None)
+
+            def check(c):
+                nonlocal n
+                args = {k.arg: k.value for k in c.keywords if k.arg}
+                pos = list(c.args)
+                want = [('model_output', 1)]
+                if c.func.attr == 'compute_sensitivities':
+                    want.append(('model_sensitivities', 2))
+                for name, p in want:
+                    a = args.get(name, pos[p] if len(pos) > p else None)
+                    if a is None:
+                        continue
+                    n += 1
+                    k_ = kind(a)
+                    where = repo.loc(c, CLS, m)
+                    if k_ == 'SEL':
+                        ctx.ok(rule, where, construct,
+                               '%s of `%s` is the selection by the '
+                               'output\'s selector on every path' % (
+                                   name, c.func.attr))
+                    elif k_ in ('RAW', 'MIXED'):
+                        ctx.violation(
+                            rule, where, construct,
+                            'selector skipped %s' % name,
+                            '`%s` handed to %s is %s: the predictions on '
+                            'the union grid of all outputs are paired with '
+                            'this output\'s observations position by '
+                            'position' % (
+                                U(a)[:30], c.func.attr,
+                                'selected with self._obs_masks only on some '
+                                'paths' if k_ == 'MIXED' else
+                                'not selected with self._obs_masks'))
+                    else:
+                        ctx.error(rule, '%s: provenance of %s `%s` not '
+                                  'derived' % (construct, name, U(a)[:30]))
+            visit(loop.body)
+    if n < 4:
+        ctx.error(rule, 'only %d error-model calls analysed (floor 4)' % n)
